@@ -390,3 +390,108 @@ pub fn shrink(p: &Program, pred: &mut dyn FnMut(&Program) -> bool, max_evals: us
         }
     }
 }
+
+
+/// Does some function of `p` contain a variable that one lambda assigns while another lambda
+/// (neither nested in the other) also mentions it? (Names are unique per program.)
+/// On the VM such a variable diverges once one of the closures has been closed (known finding).
+pub fn assigns_variable_captured_by_another_closure(p: &Program) -> bool {
+    fn names_assigned_or_used(e: &E, assigned: &mut Vec<String>, used: &mut Vec<String>) {
+        visit(e, &mut |x| match x {
+            E::Var(n) => used.push(n.clone()),
+            E::Lambda(_, b) | E::Block(b) => {
+                for s in &b.stmts {
+                    if let Stmt::Assign(n, _) = s {
+                        assigned.push(n.clone());
+                        used.push(n.clone());
+                    }
+                }
+            }
+            _ => {}
+        });
+    }
+    // outermost lambdas of a body, each with the names it assigns / mentions (nested lambdas included)
+    fn outer_lambdas<'a>(e: &'a E, out: &mut Vec<&'a E>) {
+        match e {
+            E::Lambda(..) => out.push(e),
+            _ => {
+                // one level down without entering lambdas
+                let mut kids: Vec<&'a E> = vec![];
+                match e {
+                    E::Bin(_, a, b) | E::PipeVal(a, b) => {
+                        kids.push(a);
+                        kids.push(b);
+                    }
+                    E::Neg(a) | E::Not(a) | E::Proj(a, _) | E::Field(a, _) | E::Mem(a, _) => kids.push(a),
+                    E::PipeFn { arg, .. } => kids.push(arg),
+                    E::Builtin(_, v) | E::Tuple(v) => kids.extend(v.iter()),
+                    E::CallFn { args, .. } => kids.extend(args.iter()),
+                    E::CallVal(c, v) => {
+                        kids.push(c);
+                        kids.extend(v.iter());
+                    }
+                    E::If(c, a, b) => {
+                        kids.push(c);
+                        kids.push(a);
+                        kids.push(b);
+                    }
+                    E::Record(fs) => kids.extend(fs.iter().map(|f| &f.1)),
+                    E::Block(b) => {
+                        for s in &b.stmts {
+                            match s {
+                                Stmt::Let(_, _, x) | Stmt::Assign(_, x) => kids.push(x),
+                            }
+                        }
+                        kids.push(&b.result);
+                    }
+                    E::Delay(_, x, t, _) => {
+                        kids.push(x);
+                        kids.push(t);
+                    }
+                    _ => {}
+                }
+                for k in kids {
+                    outer_lambdas(k, out);
+                }
+            }
+        }
+    }
+    let check_body = |b: &Block| -> bool {
+        let mut lams: Vec<&E> = vec![];
+        for s in &b.stmts {
+            match s {
+                Stmt::Let(_, _, x) | Stmt::Assign(_, x) => outer_lambdas(x, &mut lams),
+            }
+        }
+        outer_lambdas(&b.result, &mut lams);
+        let info: Vec<(Vec<String>, Vec<String>)> = lams
+            .iter()
+            .map(|l| {
+                let (mut a, mut u) = (vec![], vec![]);
+                names_assigned_or_used(l, &mut a, &mut u);
+                (a, u)
+            })
+            .collect();
+        for (i, (assigned, _)) in info.iter().enumerate() {
+            for n in assigned {
+                if info.iter().enumerate().any(|(j, (_, used))| j != i && used.contains(n)) {
+                    return true;
+                }
+            }
+        }
+        // the same question inside each lambda (its own nested lambdas are siblings there)
+        false
+    };
+    let mut bodies: Vec<&Block> = p.fns.iter().map(|f| &f.body).chain(std::iter::once(&p.dsp.body)).collect();
+    // lambda bodies at any depth are bodies too
+    let mut extra: Vec<&Block> = vec![];
+    for b in &bodies {
+        visit_block(b, &mut |x| {
+            if let E::Lambda(_, lb) = x {
+                extra.push(lb);
+            }
+        });
+    }
+    bodies.extend(extra);
+    bodies.iter().any(|b| check_body(b))
+}
